@@ -106,15 +106,21 @@ impl LZ13CompressionFormat {
         let mut result: Vec<u8> = Vec::new();
         let length = bytes.len();
         let lz13_length = calculate_lz13_header(bytes)?;
-        result.reserve(9 + length + ((length - 1) >> 3)); // For performance, reserve space to avoid resizing.
+        result.reserve(12 + length + ((length + 7) >> 3)); // For performance, reserve space to avoid resizing.
         result.push(0x13);
         result.push((lz13_length & 0xFF) as u8);
         result.push(((lz13_length >> 8) & 0xFF) as u8);
         result.push(((lz13_length >> 16) & 0xFF) as u8);
         result.push(0x11);
-        result.push((length & 0xFF) as u8);
-        result.push(((length >> 8) & 0xFF) as u8);
-        result.push(((length >> 16) & 0xFF) as u8);
+        if length == 0 || length > 0xFFFFFF {
+            // A zero 24-bit size means that the real size follows as 32 bits.
+            result.extend_from_slice(&[0, 0, 0]);
+            result.extend_from_slice(&(length as u32).to_le_bytes());
+        } else {
+            result.push((length & 0xFF) as u8);
+            result.push(((length >> 8) & 0xFF) as u8);
+            result.push(((length >> 16) & 0xFF) as u8);
+        }
 
         // Begin compressing using the DSDecmp algorithm.
         let mut out_buffer: Vec<u8> = Vec::new();
